@@ -102,12 +102,18 @@ Definition push_video (w : writer) (vrev : list sample) (vlast : option N) (cfg 
               w_alast_delta := w_alast_delta w; w_finalized := w_finalized w;
               w_bytes_written := w_bytes_written w; w_sink := w_sink w |}.
 
+(* the composition offset pts - dts must fit the signed 32-bit ctts entry *)
+Definition cts_fits (pts dts : N) : bool :=
+  let d := (Z.of_N pts - Z.of_N dts)%Z in
+  ((-2147483648 <=? d) && (d <=? 2147483647))%Z.
+
 (* write_video_sample_with_dts.  NB: as in the Rust code the previous sample's
    duration is patched before the converted length is checked; the check can
    only fail for a >= 4 GiB frame. *)
 Definition write_video_sample_with_dts (w : writer) (pts dts : N) (data : bytes) (key : bool)
   : writer + werr :=
   if w_finalized w then inr AlreadyFinalized
+  else if negb (cts_fits pts dts) then inr DurationOverflow
   else
     match w_vprev w with
     | Some prev =>
@@ -174,7 +180,7 @@ Definition write_audio_sample (w : writer) (pts : N) (data : bytes) : writer + w
 
 (** * SampleTables::from_samples *)
 Inductive panic_site :=
-| PanicCtsI64Overflow | PanicStszZeroSize | PanicCursorOverflow | PanicMovieDurationOverflow
+| PanicStszZeroSize | PanicCursorOverflow | PanicMovieDurationOverflow
 | PanicOther (n : N).
 
 Fixpoint durations_of (samples : list sample) (fallback : option N) : list N :=
@@ -191,38 +197,18 @@ Fixpoint keyframes_of (samples : list sample) (idx : N) : list N :=
   | s :: t => if s_key s then u32 (u32 idx + 1) :: keyframes_of t (idx + 1) else keyframes_of t (idx + 1)
   end.
 
-Definition as_i64 (x : N) : Z :=
-  let x := u64 x in
-  if x <? 9223372036854775808 then Z.of_N x else (Z.of_N x - 18446744073709551616)%Z.
-
-Definition i64_ok (z : Z) : bool := ((-9223372036854775808 <=? z) && (z <=? 9223372036854775807))%Z.
-
-(* (pts as i64 - dts as i64) as i32 ; None = i64 subtraction overflow (debug panic) *)
-Definition cts_of (s : sample) : option Z :=
-  let d := (as_i64 (s_pts s) - as_i64 (s_dts s))%Z in
-  if i64_ok d then Some (i32_of_bits (i32_bits d)) else None.
-
-Fixpoint cts_offsets_of (samples : list sample) : option (list Z) :=
-  match samples with
-  | [] => Some []
-  | s :: t => match cts_of s, cts_offsets_of t with
-              | Some c, Some r => Some (c :: r)
-              | _, _ => None
-              end
-  end.
+(* pts.wrapping_sub(dts) as i32 *)
+Definition cts_of (s : sample) : Z := i32_of_bits (i32_bits (Z.of_N (s_pts s) - Z.of_N (s_dts s))).
 
 Definition from_samples (samples : list sample) (chunk_offsets : list N) (spc : N) (fallback : option N)
-  : option sample_tables :=
-  match cts_offsets_of samples with
-  | None => None
-  | Some cts =>
-      Some {| st_durations := durations_of samples fallback;
-              st_sizes := map (fun s => u32 (len (s_data s))) samples;
-              st_keyframes := keyframes_of samples 0;
-              st_chunk_offsets := chunk_offsets; st_samples_per_chunk := spc;
-              st_cts_offsets := cts;
-              st_has_bframes := existsb (fun c => negb (Z.eqb c 0)) cts |}
-  end.
+  : sample_tables :=
+  let cts := map cts_of samples in
+  {| st_durations := durations_of samples fallback;
+     st_sizes := map (fun s => u32 (len (s_data s))) samples;
+     st_keyframes := keyframes_of samples 0;
+     st_chunk_offsets := chunk_offsets; st_samples_per_chunk := spc;
+     st_cts_offsets := cts;
+     st_has_bframes := existsb (fun c => negb (Z.eqb c 0)) cts |}.
 
 (** * Interleave schedule: stable sort by (ts, kind, idx) *)
 Inductive track_kind := KVideo | KAudio.
@@ -287,23 +273,18 @@ Definition payload_sum (l : list sample) : N := sumN (map (fun s => len (s_data 
 Definition has_zero_size (t : sample_tables) : bool := existsb (fun s => s =? 0) (st_sizes t).
 
 (* build_moov_box with its panic sites made explicit *)
-Definition moov_of (v : video_track) (vt : option sample_tables)
-           (audio : option (audio_track * option sample_tables)) (c : video_config)
+Definition moov_of (v : video_track) (vt : sample_tables)
+           (audio : option (audio_track * sample_tables)) (c : video_config)
            (m : option metadata) : bytes + panic_site :=
-  match vt with
-  | None => inr PanicCtsI64Overflow
-  | Some vt =>
-      if U64MAX <? total_duration vt * MOVIE_TIMESCALE then inr PanicMovieDurationOverflow
-      else if has_zero_size vt then inr PanicStszZeroSize
-      else
-        match audio with
-        | None => inl (build_moov_box v vt None c m)
-        | Some (_, None) => inr PanicCtsI64Overflow
-        | Some (a, Some at_) =>
-            if has_zero_size at_ then inr PanicStszZeroSize
-            else inl (build_moov_box v vt (Some (a, at_)) c m)
-        end
-  end.
+  if U64MAX <? total_duration vt * MOVIE_TIMESCALE then inr PanicMovieDurationOverflow
+  else if has_zero_size vt then inr PanicStszZeroSize
+  else
+    match audio with
+    | None => inl (build_moov_box v vt None c m)
+    | Some (a, at_) =>
+        if has_zero_size at_ then inr PanicStszZeroSize
+        else inl (build_moov_box v vt (Some (a, at_)) c m)
+    end.
 
 Definition MDAT_TOO_BIG : option fin_err := Some (FinIo IoInvalidData).
 
